@@ -187,6 +187,68 @@ def install_common(reg: Registry):
                      note='a set of names (asset names are unique in a well-formed language, so a common name is a common ancestor)'))
 
 
+def install_assoc_lookup(reg: Registry):
+    """LanguageGraph.get_association_by_fields_and_assets (C15; the loaders of C18 / C19 resolve every link through it): the FIRST
+    association of the language graph whose two ends match the two (field name, asset type) pairs in either orientation — an end
+    matches when the field name is equal and the given asset type is the end's type or a sub-type of it; None when there is none."""
+    from .c_evaluator import AssetByName, asset_by_name_def
+    FA_ = reg.schema.storage(LGF_, 'asset')
+    lf = lambda h, s: h.f('fieldname', h.f('left_field', s))
+    rf = lambda h, s: h.f('fieldname', h.f('right_field', s))
+    la = lambda h, s: h.f(FA_, h.f('left_field', s))
+    ra = lambda h, s: h.f(FA_, h.f('right_field', s))
+
+    def match(hs, c, s):
+        a1, a2 = v_a(AssetByName(c.first_asset_name)), v_a(AssetByName(c.second_asset_name))
+        return z3.Or(z3.And(lf(hs, s) == c.first_field, rf(hs, s) == c.second_field, ANC(a1, la(hs, s)), ANC(a2, ra(hs, s))),
+                     z3.And(lf(hs, s) == c.second_field, rf(hs, s) == c.first_field, ANC(a2, la(hs, s)), ANC(a1, ra(hs, s))))
+
+    def req(c):
+        hs = spec_heap(c.old.schema)
+        s = A('s!al')
+        v = z3.Const('v!al', Val)
+        SL = hs.f('associations', c.self)
+        return [('ANC.def', z3.And(*anc_axioms(hs))), ('wf_lang.inheritance', wf_inheritance(hs)), ('HS.agree', agree(hs, c.old)),
+                ('HS.objects', z3.And(c.self >= 0, c.self < hs.alloc)), ('HS.closed', z3.And(*heap_closed(hs))),
+                ('AssetByName.def', asset_by_name_def(hs, c.self)),
+                ('associations-typed', z3.And(FA([v], z3.Implies(hs.bag(SL, v) > 0, is_VRef(v)), [hs.bag(SL, v)]),
+                                              FA([s], z3.Implies(hs.cnt(SL, s) > 0, z3.And(s >= 0, s < hs.alloc, hs.f('left_field', s) >= 0, hs.f('left_field', s) < hs.alloc,
+                                                                                           hs.f('right_field', s) >= 0, hs.f('right_field', s) < hs.alloc,
+                                                                                           la(hs, s) >= 0, la(hs, s) < hs.alloc, ra(hs, s) >= 0, ra(hs, s) < hs.alloc)),
+                                                 [hs.cnt(SL, s)])))]
+
+    def inv(c: LCtx):
+        hs = spec_heap(c.old.schema)
+        s = A('s!ai2')
+        return old_region_unchanged_all(c.old, c.h) + [
+            ('no-match-so-far', FA([s], z3.Implies(z3.Select(c.done, VRef(s)) > 0, z3.Not(match(hs, c, s))), [z3.Select(c.done, VRef(s))])),
+            ('no-match-before-here', FA([z3.Int('j!ai2')], z3.Implies(z3.And(0 <= z3.Int('j!ai2'), z3.Int('j!ai2') < c.i),
+                                                                      z3.Not(match(hs, c, v_a(hs.at(hs.f('associations', c.self), z3.Int('j!ai2')))))),
+                                        [hs.at(hs.f('associations', c.self), z3.Int('j!ai2'))])),
+            ('HS.agree', agree(hs, c.h))]
+
+    def ens(c):
+        hs = spec_heap(c.old.schema)
+        s = A('s!ae2')
+        j, j2 = z3.Int('j!ae2'), z3.Int('j2!ae2')
+        SL = hs.f('associations', c.self)
+        r = v_a(c.res)
+        return old_region_unchanged_all(c.old, c.h) + [
+            ('none-iff-no-match', is_VNone(c.res) == z3.Not(z3.Exists([s], z3.And(hs.cnt(SL, s) > 0, match(hs, c, s)), patterns=[hs.cnt(SL, s)]))),
+            ('hit-is-the-first-match', z3.Implies(is_VRef(c.res), z3.Exists([j], z3.And(0 <= j, j < hs.len(SL), hs.at(SL, j) == c.res, match(hs, c, r),
+                                                                                        FA([j2], z3.Implies(z3.And(0 <= j2, j2 < j), z3.Not(match(hs, c, v_a(hs.at(SL, j2))))),
+                                                                                           [hs.at(SL, j2)])))))]
+
+    def raise_cond(c):
+        return z3.Or(is_VNone(AssetByName(c.first_asset_name)), is_VNone(AssetByName(c.second_asset_name)))
+
+    reg.add(Contract(ML + ':LanguageGraph.get_association_by_fields_and_assets',
+                     {'self': Obj(LG), 'first_field': T.str, 'second_field': T.str, 'first_asset_name': T.str, 'second_asset_name': T.str},
+                     returns=Obj(LGS_, opt=True), requires=req, ensures=ens, raises={'LookupError': raise_cond},
+                     modifies=LIST_ARRAYS + ('cls', 'own_obj'), allocates=True, loops={0: LoopSpec(inv, iter_src='self.associations')},
+                     props=('C15', 'C18', 'C19')))
+
+
 _inst0 = install
 
 
@@ -195,3 +257,4 @@ def install(reg: Registry):
     install_closure_lists(reg)
     install_subassets(reg)
     install_common(reg)
+    install_assoc_lookup(reg)
